@@ -158,15 +158,17 @@ def _ctor_consumption(ix, cls):
     return consumed, strict
 
 
-def r2_hyperparameters(ctx):
-    ctx.rule("C12.R2", "keys written are consumed on load; behaviour-shaping constructor attributes are written (7 kinds)", 30)
+def r2_hyperparameters(ctx, rid="C12.R2", only_classes=None):
+    ctx.rule(rid, "keys written are consumed on load; behaviour-shaping constructor attributes are written (7 kinds)", 30 if only_classes is None else 2)
     ix = ctx.ix
     f, table = _factory_table(ctx)
     fparams = {a.arg for a in f.node.args.args}
     for member, (cname, call) in sorted(table.items()):
+        if only_classes is not None and cname not in only_classes:
+            continue
         cls = ix.resolve_class(FACT, ast.Name(id=cname, ctx=ast.Load()))
         if cls is None:
-            raise AnalysisError("C12.R2", f"cannot resolve class {cname} of the factory")
+            raise AnalysisError(rid, f"cannot resolve class {cname} of the factory")
         chain = _to_dict_chain(ix, cls)
         written = {}
         for fn, keys in chain[::-1]:
@@ -177,14 +179,14 @@ def r2_hyperparameters(ctx):
             if k in DROPPED:
                 continue
             if k in fparams:
-                ctx.ok("C12.R2", fn, v, f"{cname}: `{k}` is a parameter of model_factory", construct=f"key '{k}'", instance=cname)
+                ctx.ok(rid, fn, v, f"{cname}: `{k}` is a parameter of model_factory", construct=f"key '{k}'", instance=cname)
                 continue
-            ctx.check(k in consumed, "C12.R2", fn, v, f"{cname}: `{k}` consumed on load by {consumed.get(k)}",
+            ctx.check(k in consumed, rid, fn, v, f"{cname}: `{k}` consumed on load by {consumed.get(k)}",
                       f"{cname}: to_dict writes `{k}` but nothing in the constructor chain reads it back (BaseModel silently ignores extra keyword arguments): the value is lost on reload",
                       construct=f"key '{k}'", instance=cname)
             if strict is not None and k not in ("obs_models", "fit_metrics", "variables_to_track") and k not in {p for p in consumed if "parameter" in consumed[p]}:
                 exp, sf = strict
-                ctx.check(k in exp, "C12.R2", sf, sf.node, f"{cname}: `{k}` listed among the expected hyperparameters",
+                ctx.check(k in exp, rid, sf, sf.node, f"{cname}: `{k}` listed among the expected hyperparameters",
                           f"{cname}: `{k}` is written by to_dict but refused as an unknown hyperparameter on load", construct=f"expected hyperparameter '{k}'", instance=cname)
         # behaviour-shaping attributes set by the constructor chain
         shaping = _shaping_attributes(ix, cls)
@@ -194,7 +196,7 @@ def r2_hyperparameters(ctx):
                 if any(isinstance(x, ast.Attribute) and U(x.value) == "self" and x.attr in (attr, attr.lstrip("_")) for x in ast.walk(v)):
                     hit = k
             where = ix.funcs.get((cls[0], f"{cls[1]}.to_dict")) or chain[0][0]
-            ctx.check(hit is not None, "C12.R2", (cls[0], cls[1]), None, f"{cname}.{attr} (read by {readers[0]}) is written under `{hit}`",
+            ctx.check(hit is not None, rid, (cls[0], cls[1]), None, f"{cname}.{attr} (read by {readers[0]}) is written under `{hit}`",
                       f"{cname}.{attr} is set by {setter} and read by {', '.join(readers[:2])} but no to_dict of the class hierarchy writes it: a reloaded model behaves "
                       "differently (or crashes) for any non-default value", construct=attr, instance=cname)
 
